@@ -539,6 +539,9 @@ def call_builtin(ex, name, args, kw, node):
     if name == "getattr":
         x, a = args[0], args[1]
         if isinstance(x, ObjV) and isinstance(a, StrV) and a.s in ex.prop.fields:
+            # a declared field; for "optional" attributes (getattr with a default) the field's
+            # declared model already encodes "absent" (e.g. the empty set / False): see the
+            # property's assumptions
             return ex.read_field(x, a.s)
         raise Unsupported("getattr of an undeclared field")
     if name == "super":
@@ -626,6 +629,8 @@ def call_builtin_method(ex, recv, name, args, kw, node):
             return rebind(new)
         if name == "copy":
             return recv
+        if name == "clear":
+            return rebind(SeqV(recv.shape, recv.arr, I(0)))
         if name == "extend":
             other = to_seq(ex, args[0], node)
             i = z3.Const(fresh_name("xi"), z3.IntSort())
